@@ -8,7 +8,7 @@ mkdir -p $S
 [ -x "$VER/bin/pegsim-instrument" ] && [ ! "$VER/instrument/main.go" -nt "$VER/bin/pegsim-instrument" ] || ( mkdir -p "$VER/bin"; cd "$VER/instrument" && go1.26.8 build -o "$VER/bin/pegsim-instrument" . )
 rsync -a --delete --exclude .git ${REPO:-/repo}/ $S/repo/ && SIMRT_DIR=$HERE/simrt PATH=/opt/veriftools/go1.26.8/bin:$PATH "$VER/bin/pegsim-instrument" $S/repo > $S/instrument.json
 sed "s#=> /var/tmp/pegsim-scratch/repo#=> $S/repo#; s#=> ./simrt#=> $HERE/simrt#" $HERE/go.mod > $S/go.mod; cp $HERE/go.sum $S/go.sum
-cd $HERE && go1.26.8 test -c -tags verif -modfile=$S/go.mod -o $S/pegsim.test ./h 2>&1 | grep -v "warning\|^#\|note:\|sqlite3-binding\|~~~\|\^\|In function\|     |"
+rm -f $S/pegsim.test; cd $HERE && go1.26.8 test -c -tags verif -modfile=$S/go.mod -o $S/pegsim.test ./h 2>&1 | grep -v "warning\|^#\|note:\|sqlite3-binding\|~~~\|\^\|In function\|     |"
 cd $S && rm -f out-$1.json
 PEGSIM_ONESEED=${ONESEED:-} PEGSIM_KNOWN=$VER/known_findings.json PEGSIM_PROP=$1 PEGSIM_TIER=${4:-quick} PEGSIM_SEED=${3:-1} PEGSIM_BUDGET_S=${2:-20} PEGSIM_OUT=$S/out-$1.json PEGSIM_REPLAYDIR=$S/replays ./pegsim.test -test.run '^TestWorker$' -test.timeout 0 2>&1 | grep -v "^\s*$" | head -${LINES_MAX:-40}
 python3 - <<PY
